@@ -1,0 +1,193 @@
+//! Verification hook (compiled only with `--cfg cgt_verif`).
+//!
+//! An insertion-ordered association-list map offering the subset of the `std::collections::HashMap`
+//! API that this crate uses. Every traversal asks `order()` for the order in which to visit the
+//! entries, so that a verification harness can explore all iteration orders; the default is
+//! insertion order. The production build never sees this module.
+
+use std::sync::Mutex;
+
+/// Returns a permutation of `0..n`: the order in which a traversal visits the `n` entries.
+pub type OrderHook = fn(usize) -> Vec<usize>;
+
+static ORDER_HOOK: Mutex<Option<OrderHook>> = Mutex::new(None);
+
+/// Install (or remove) the traversal-order hook.
+pub fn set_order_hook(hook: Option<OrderHook>) {
+    if let Ok(mut h) = ORDER_HOOK.lock() {
+        *h = hook;
+    }
+}
+
+fn order(n: usize) -> Vec<usize> {
+    let hook = ORDER_HOOK.lock().ok().and_then(|h| *h);
+    let ord = match hook {
+        Some(f) if n > 1 => f(n),
+        _ => (0..n).collect(),
+    };
+    debug_assert_eq!(ord.len(), n);
+    ord
+}
+
+#[derive(Debug, Clone)]
+pub struct HashMap<K, V> {
+    items: Vec<(K, V)>,
+}
+
+impl<K, V> Default for HashMap<K, V> {
+    fn default() -> Self {
+        Self { items: Vec::new() }
+    }
+}
+
+pub enum Entry<'a, K, V> {
+    Occupied(&'a mut V),
+    Vacant(&'a mut Vec<(K, V)>, K),
+}
+
+impl<'a, K, V> Entry<'a, K, V> {
+    pub fn or_insert(self, default: V) -> &'a mut V {
+        self.or_insert_with(|| default)
+    }
+
+    pub fn or_insert_with<F: FnOnce() -> V>(self, f: F) -> &'a mut V {
+        match self {
+            Entry::Occupied(v) => v,
+            Entry::Vacant(items, k) => {
+                items.push((k, f()));
+                let last = items.len() - 1;
+                &mut items[last].1
+            }
+        }
+    }
+
+    pub fn or_default(self) -> &'a mut V
+    where
+        V: Default,
+    {
+        self.or_insert_with(V::default)
+    }
+
+    pub fn and_modify<F: FnOnce(&mut V)>(self, f: F) -> Self {
+        match self {
+            Entry::Occupied(v) => {
+                f(v);
+                Entry::Occupied(v)
+            }
+            vacant => vacant,
+        }
+    }
+}
+
+impl<K: PartialEq, V> HashMap<K, V> {
+    pub fn new() -> Self {
+        Self::default()
+    }
+
+    pub fn len(&self) -> usize {
+        self.items.len()
+    }
+
+    pub fn is_empty(&self) -> bool {
+        self.items.is_empty()
+    }
+
+    pub fn get<Q: ?Sized>(&self, k: &Q) -> Option<&V>
+    where
+        K: std::borrow::Borrow<Q>,
+        Q: PartialEq,
+    {
+        self.items
+            .iter()
+            .find(|(key, _)| key.borrow() == k)
+            .map(|(_, v)| v)
+    }
+
+    pub fn get_mut<Q: ?Sized>(&mut self, k: &Q) -> Option<&mut V>
+    where
+        K: std::borrow::Borrow<Q>,
+        Q: PartialEq,
+    {
+        self.items
+            .iter_mut()
+            .find(|(key, _)| (*key).borrow() == k)
+            .map(|(_, v)| v)
+    }
+
+    pub fn contains_key<Q: ?Sized>(&self, k: &Q) -> bool
+    where
+        K: std::borrow::Borrow<Q>,
+        Q: PartialEq,
+    {
+        self.get(k).is_some()
+    }
+
+    pub fn insert(&mut self, k: K, v: V) -> Option<V> {
+        if let Some(slot) = self.items.iter_mut().find(|(key, _)| *key == k) {
+            return Some(std::mem::replace(&mut slot.1, v));
+        }
+        self.items.push((k, v));
+        None
+    }
+
+    pub fn remove<Q: ?Sized>(&mut self, k: &Q) -> Option<V>
+    where
+        K: std::borrow::Borrow<Q>,
+        Q: PartialEq,
+    {
+        let pos = self.items.iter().position(|(key, _)| key.borrow() == k)?;
+        Some(self.items.remove(pos).1)
+    }
+
+    pub fn entry(&mut self, k: K) -> Entry<'_, K, V> {
+        match self.items.iter().position(|(key, _)| *key == k) {
+            Some(pos) => Entry::Occupied(&mut self.items[pos].1),
+            None => Entry::Vacant(&mut self.items, k),
+        }
+    }
+
+    pub fn iter(&self) -> impl Iterator<Item = (&K, &V)> {
+        order(self.items.len())
+            .into_iter()
+            .map(move |i| (&self.items[i].0, &self.items[i].1))
+    }
+
+    pub fn keys(&self) -> impl Iterator<Item = &K> {
+        self.iter().map(|(k, _)| k)
+    }
+
+    pub fn values(&self) -> impl Iterator<Item = &V> {
+        self.iter().map(|(_, v)| v)
+    }
+
+    pub fn into_values(self) -> impl Iterator<Item = V> {
+        self.into_iter().map(|(_, v)| v)
+    }
+}
+
+impl<K: PartialEq, V> IntoIterator for HashMap<K, V> {
+    type Item = (K, V);
+    type IntoIter = std::vec::IntoIter<(K, V)>;
+
+    fn into_iter(self) -> Self::IntoIter {
+        let ord = order(self.items.len());
+        let mut slots: Vec<Option<(K, V)>> = self.items.into_iter().map(Some).collect();
+        let mut out = Vec::with_capacity(slots.len());
+        for i in ord {
+            if let Some(item) = slots.get_mut(i).and_then(Option::take) {
+                out.push(item);
+            }
+        }
+        out.into_iter()
+    }
+}
+
+impl<K: PartialEq, V> FromIterator<(K, V)> for HashMap<K, V> {
+    fn from_iter<I: IntoIterator<Item = (K, V)>>(iter: I) -> Self {
+        let mut m = Self::new();
+        for (k, v) in iter {
+            m.insert(k, v);
+        }
+        m
+    }
+}
